@@ -187,6 +187,8 @@ pub fn generate<W: Write>(prop: &str, tier: &str, seed: u64, out: &mut W) {
     match prop {
         "C16" => gen_c16(&mut r, thorough, out),
         "C01" => gen_c01(&mut r, thorough, out),
+        "C02" => gen_c02(&mut r, thorough, out),
+        "C04" | "C05" => gen_map(&mut r, thorough, out),
         "C06" | "C07" | "C08" | "C10" | "C13" | "C14" => gen_hist(prop, &mut r, thorough, out),
         _ => panic!("no generator for {prop}"),
     }
@@ -598,6 +600,298 @@ pub fn gen_hist<W: Write>(prop: &str, r: &mut Rng, thorough: bool, out: &mut W) 
                 );
                 let o = if ops.is_empty() { "~".to_string() } else { ops.join(";") };
                 writeln!(out, "{head} ops={o} obs={obs}").unwrap();
+            }
+        }
+    }
+}
+
+// ------------------------------------------------------------------ map / AlnWriter cases
+
+fn gen_reference(r: &mut Rng, k: usize) -> Vec<Vec<u8>> {
+    let h = (k - 1) / 2;
+    let ncontig = 1 + r.below(4);
+    let mut contigs: Vec<Vec<u8>> = Vec::new();
+    for _ in 0..ncontig {
+        let len = match r.below(9) {
+            0 => 1,
+            1 => h,
+            2 => k - 1,
+            3 => k,
+            4 => k + 1,
+            5 => 2 * k + 3,
+            _ => 3 * k + r.below(3 * k),
+        };
+        contigs.push(rand_acgt(r, len));
+    }
+    // make sure at least one contig can hold k-mers most of the time
+    if r.chance(9, 10) && contigs.iter().all(|c| c.len() < k) {
+        let l = 3 * k + r.below(2 * k);
+        contigs.push(rand_acgt(r, l));
+    }
+    // planted repeats: copy a window (maybe reverse-complemented, maybe with another middle base)
+    let nrep = r.below(3);
+    for _ in 0..nrep {
+        let srcs: Vec<usize> = (0..contigs.len()).filter(|i| contigs[*i].len() >= k).collect();
+        if srcs.is_empty() {
+            break;
+        }
+        let si = *r.pick(&srcs);
+        let sp = r.below(contigs[si].len() - k + 1);
+        let span = usize::min(k + r.below(k), contigs[si].len() - sp);
+        let mut w = contigs[si][sp..sp + span].to_vec();
+        if r.chance(1, 2) {
+            w = revcomp(&w);
+        }
+        if r.chance(1, 2) {
+            w[h] = *r.pick(&ACGT);
+        }
+        let di = *r.pick(&srcs);
+        if contigs[di].len() >= span {
+            let dp = r.below(contigs[di].len() - span + 1);
+            contigs[di][dp..dp + span].copy_from_slice(&w);
+        }
+    }
+    // N runs and case
+    for c in contigs.iter_mut() {
+        if !c.is_empty() && r.chance(1, 3) {
+            let a = r.below(c.len());
+            let run = 1 + r.below(3);
+            for i in a..usize::min(c.len(), a + run) {
+                c[i] = b'N';
+            }
+        }
+        match r.below(6) {
+            0 => c.iter_mut().for_each(|b| *b = b.to_ascii_lowercase()),
+            1 => {
+                for b in c.iter_mut() {
+                    if r.chance(1, 3) {
+                        *b = b.to_ascii_lowercase();
+                    }
+                }
+            }
+            _ => {}
+        }
+    }
+    contigs
+}
+
+/// a sample derived from the reference: SNPs, indels, rearranged / reverse-complemented / missing contigs
+fn derive_sample(r: &mut Rng, k: usize, reference: &[Vec<u8>]) -> Vec<Vec<u8>> {
+    let mut recs: Vec<Vec<u8>> = Vec::new();
+    let mut order: Vec<usize> = (0..reference.len()).collect();
+    if r.chance(1, 3) {
+        r.shuffle(&mut order);
+    }
+    for ci in order {
+        if reference.len() > 1 && r.chance(1, 6) {
+            continue; // sample lacks this contig
+        }
+        let mut c: Vec<u8> = reference[ci].iter().map(|b| b.to_ascii_uppercase()).collect();
+        let nmut = r.below(4);
+        for _ in 0..nmut {
+            if c.is_empty() {
+                break;
+            }
+            let p = r.below(c.len());
+            match r.below(5) {
+                0 | 1 | 2 => c[p] = *r.pick(&ACGT),
+                3 => {
+                    c.remove(p);
+                }
+                _ => c.insert(p, *r.pick(&ACGT)),
+            }
+        }
+        // consecutive matches at every distance: drop a block of 0..2k+2 bases
+        if c.len() > 4 * k && r.chance(1, 3) {
+            let cut = r.below(2 * k + 3);
+            let p = r.below(c.len() - cut);
+            c.drain(p..p + cut);
+        }
+        if r.chance(1, 3) {
+            c = revcomp(&c);
+        }
+        if c.is_empty() {
+            c.push(b'N');
+        }
+        recs.push(c);
+    }
+    if recs.is_empty() || r.chance(1, 8) {
+        let l = k + r.below(2 * k);
+        recs.push(rand_acgt(r, l));
+    }
+    recs
+}
+
+fn join_recs(recs: &[Vec<u8>]) -> String {
+    recs.iter().map(|x| s(x)).collect::<Vec<_>>().join(",")
+}
+
+pub fn gen_map<W: Write>(r: &mut Rng, thorough: bool, out: &mut W) {
+    let rounds = if thorough { 6000 } else { 260 };
+    for round in 0..rounds {
+        let k = *r.pick(&[5usize, 7, 9, 11, 15, 21, 31, 33, 41]);
+        let w = if k <= 31 && r.chance(4, 5) { 64 } else { 128 };
+        let h = (k - 1) / 2;
+        let rc = r.below(2);
+        let reference = gen_reference(r, k);
+        let head = format!(
+            "map w={w} k={k} rc={rc} amask={} rmask={} ref={}",
+            r.below(2),
+            r.below(2),
+            join_recs(&reference)
+        );
+        if round % 4 == 3 {
+            // table form: rows keyed by reference windows, cells incl. ambiguity codes and gaps
+            let nsamp = 1 + r.below(3);
+            let mut rows: Vec<String> = Vec::new();
+            let mut seen: Vec<u128> = Vec::new();
+            for c in &reference {
+                if c.len() < k {
+                    continue;
+                }
+                for j in 0..=(c.len() - k) {
+                    let win = &c[j..j + k];
+                    if win.iter().any(|b| b.to_ascii_uppercase() == b'N') || !r.chance(2, 3) {
+                        continue;
+                    }
+                    let mut arms = win[..h].to_vec();
+                    arms.extend_from_slice(&win[h + 1..]);
+                    let mut key = pack(&arms);
+                    if rc == 1 {
+                        key = u128::min(key, pack(&revcomp(&arms)));
+                    }
+                    if seen.contains(&key) {
+                        continue;
+                    }
+                    seen.push(key);
+                    let mut cells: Vec<u8> = (0..nsamp)
+                        .map(|_| match r.below(10) {
+                            0 | 1 => b'-',
+                            2 => *r.pick(&AMBIG),
+                            _ => *r.pick(&CODE_ORDER),
+                        })
+                        .collect();
+                    if cells.iter().all(|x| *x == b'-') {
+                        cells[0] = b'A';
+                    }
+                    rows.push(format!("{}:{}", key, String::from_utf8(cells).unwrap()));
+                }
+            }
+            let names: Vec<String> = (0..nsamp).map(|i| format!("s{i}")).collect();
+            let rows_s = if rows.is_empty() { "1:".to_string() + &"A".repeat(nsamp) } else { rows.join(",") };
+            writeln!(out, "{head} table={}|{}", names.join(","), rows_s).unwrap();
+        } else {
+            let nsamp = 1 + r.below(3);
+            let samples: Vec<String> = (0..nsamp)
+                .map(|_| {
+                    let recs = derive_sample(r, k, &reference);
+                    recs.iter().map(|x| s(x)).collect::<Vec<_>>().join("+")
+                })
+                .collect();
+            writeln!(out, "{head} samples={}", samples.join("|")).unwrap();
+        }
+    }
+    // AlnWriter driven call by call
+    let traces = if thorough { 60000 } else { 3000 };
+    for _ in 0..traces {
+        let k = *r.pick(&[5usize, 7, 9, 15, 31]);
+        let h = (k - 1) / 2;
+        let ncontig = 1 + r.below(3);
+        let mut reference: Vec<Vec<u8>> = Vec::new();
+        let mut matches: Vec<String> = Vec::new();
+        let mut total = 0;
+        for ci in 0..ncontig {
+            let len = match r.below(6) {
+                0 => r.below(k),
+                1 => k,
+                2 => k + 1,
+                _ => 2 * k + r.below(5 * k),
+            };
+            let c = rand_acgt(r, len);
+            if len >= k && r.chance(5, 6) {
+                let mut p = h + if r.chance(1, 2) { 0 } else { r.below(k) };
+                while p + h < len {
+                    let b = if r.chance(1, 8) { *r.pick(&AMBIG) } else { *r.pick(&ACGT) };
+                    matches.push(format!("{ci}:{p}:{}", b as char));
+                    // every gap length 1..2k+3, biased to 1
+                    p += if r.chance(1, 2) { 1 } else { 1 + r.below(2 * k + 3) };
+                }
+            }
+            total += len;
+            reference.push(c);
+        }
+        let mut reps: Vec<usize> = (0..total).filter(|_| r.chance(1, 12)).collect();
+        reps.dedup();
+        let reps_s: Vec<String> = reps.iter().map(|x| x.to_string()).collect();
+        writeln!(
+            out,
+            "alnw k={k} mask={} ref={} reps={} matches={}",
+            r.below(2),
+            join_recs(&reference),
+            if reps_s.is_empty() { "~".to_string() } else { reps_s.join(",") },
+            if matches.is_empty() { "~".to_string() } else { matches.join(",") }
+        )
+        .unwrap();
+    }
+}
+
+
+// ------------------------------------------------------------------ C02: transformed inputs
+
+fn flip_case(b: u8) -> u8 {
+    if b.is_ascii_alphabetic() {
+        b ^ 0x20
+    } else {
+        b
+    }
+}
+
+fn gen_c02<W: Write>(r: &mut Rng, thorough: bool, out: &mut W) {
+    let rounds = if thorough { 1200 } else { 25 };
+    for _ in 0..rounds {
+        for k in valid_ks() {
+            let w = *r.pick(&widths_for(k));
+            let rc = r.below(2);
+            let nrec = 1 + r.below(4);
+            let mut recs: Vec<Vec<u8>> = Vec::new();
+            for _ in 0..nrec {
+                let mut q = tricky_seq(r, k);
+                if q.is_empty() {
+                    q = vec![b'N'];
+                }
+                if !recs.is_empty() && r.chance(1, 3) {
+                    let prev = recs[r.below(recs.len())].clone();
+                    let mut p = if r.chance(1, 2) { revcomp(&prev) } else { prev };
+                    if p.len() > k {
+                        let pos = r.below(p.len());
+                        p[pos] = *r.pick(&ACGT);
+                    }
+                    q = p;
+                }
+                recs.push(q);
+            }
+            let orig: Vec<String> = recs.iter().map(|x| s(x)).collect();
+            // each transformation on its own, then all together
+            let mut variants: Vec<Vec<Vec<u8>>> = Vec::new();
+            let mut perm = recs.clone();
+            r.shuffle(&mut perm);
+            variants.push(perm);
+            variants.push(recs.iter().map(|q| q.iter().map(|b| if r.chance(1, 2) { flip_case(*b) } else { *b }).collect()).collect());
+            if rc == 1 {
+                variants.push(recs.iter().map(|q| if r.chance(1, 2) { revcomp(q) } else { q.clone() }).collect());
+                let mut all: Vec<Vec<u8>> = recs
+                    .iter()
+                    .map(|q| {
+                        let q2 = if r.chance(1, 2) { revcomp(q) } else { q.clone() };
+                        q2.iter().map(|b| if r.chance(1, 3) { flip_case(*b) } else { *b }).collect()
+                    })
+                    .collect();
+                r.shuffle(&mut all);
+                variants.push(all);
+            }
+            for v in variants {
+                let alt: Vec<String> = v.iter().map(|x| s(x)).collect();
+                writeln!(out, "build2 w={w} k={k} rc={rc} recs={} alt={}", orig.join(","), alt.join(",")).unwrap();
             }
         }
     }
